@@ -174,5 +174,115 @@ theorem scan_none_iff (ε εA : α) (rs : List (Rect α)) (items : List (Rect α
       simp only [Bool.not_eq_true] at hv
       simp [hv]
 
+/-! ### `create_stog` as a whole -/
+
+/-- the labelling tail of `create_stog`: head becomes TRUNK, every other rectangle gets its location. -/
+def label (ε εA : α) : List (Rect α) → List (Rect α)
+  | [] => []
+  | t :: others => { t with loc := .trunk } :: others.map fun r => { r with loc := findLocation ε εA t r }
+
+theorem label_map_eraseLoc (ε εA : α) (l : List (Rect α)) : (label ε εA l).map eraseLoc = l.map eraseLoc := by
+  cases l with
+  | nil => rfl
+  | cons t others =>
+    simp only [label, List.map_cons, List.map_map]
+    congr 1
+
+/-- rectangle `i` can serve as trunk: every other rectangle has a location with respect to it. -/
+def IsTrunkAt (ε εA : α) (rs : List (Rect α)) (i : Nat) : Prop :=
+  ∃ h : i < rs.length, ∀ j (hj : j < rs.length), j ≠ i → findLocation ε εA rs[i] rs[j] ≠ .nopoly
+
+theorem isTrunkAt_map_eraseLoc (ε εA : α) (rs : List (Rect α)) (i : Nat) :
+    IsTrunkAt ε εA (rs.map eraseLoc) i ↔ IsTrunkAt ε εA rs i := by
+  unfold IsTrunkAt
+  simp only [List.length_map, List.getElem_map, findLocation_eraseLoc]
+
+theorem isTrunkAt_iff_valid (ε εA : α) (rs : List (Rect α)) (i : Nat) (h : i < rs.length) :
+    IsTrunkAt ε εA rs i ↔ validTrunk ε εA rs i rs[i] = true := by
+  rw [validTrunk_iff]
+  exact ⟨fun ⟨_, h'⟩ => h', fun h' => ⟨h, h'⟩⟩
+
+/-- the list after the swap `rectangles[0], rectangles[b] = rectangles[b], rectangles[0]`. -/
+theorem swapped_shape {β : Type} (L : List β) (b : Nat) (h0 : 0 < L.length) (hb : b < L.length) :
+    ∃ others, (L.set 0 L[b]).set b L[0] = L[b] :: others ∧
+      ∀ r ∈ others, ∃ k, ∃ hk : k < L.length, k ≠ b ∧ r = L[k] := by
+  have hlen : ((L.set 0 L[b]).set b L[0]).length = L.length := by simp
+  match hL : (L.set 0 L[b]).set b L[0] with
+  | [] => rw [hL] at hlen; simp at hlen; omega
+  | t :: others =>
+    refine ⟨others, ?_, ?_⟩
+    · congr 1
+      have h1 : ((L.set 0 L[b]).set b L[0])[0]'(by rw [hlen]; exact h0) = t := by simp [hL]
+      rw [← h1, List.getElem_set]
+      split
+      · rename_i hb0; subst hb0; rfl
+      · rw [List.getElem_set]; simp
+    · intro r hr
+      obtain ⟨j, hj, rfl⟩ := List.mem_iff_getElem.mp hr
+      have hj' : j + 1 < L.length := by
+        have : (t :: others).length = L.length := by rw [← hL]; exact hlen
+        simp at this; omega
+      have h2 : others[j] = ((L.set 0 L[b]).set b L[0])[j + 1]'(by rw [hlen]; exact hj') := by simp [hL]
+      rw [h2, List.getElem_set]
+      split
+      · rename_i hbj
+        exact ⟨0, h0, by omega, rfl⟩
+      · rename_i hbj
+        rw [List.getElem_set]
+        simp only [show ¬ (0 = j + 1) by omega, ↓reduceIte]
+        exact ⟨j + 1, hj', by omega, rfl⟩
+
+/-- what `create_stog` does, case by case. -/
+theorem createStog_spec (ε εA : α) (rs : List (Rect α)) (hne : rs ≠ []) :
+    (∃ r, rs = [r] ∧ createStog ε εA rs = some (true, [{ r with loc := .trunk }])) ∨
+    (2 ≤ rs.length ∧ (¬ ∃ i, IsTrunkAt ε εA rs i) ∧ createStog ε εA rs = some (false, rs.map eraseLoc)) ∨
+    (2 ≤ rs.length ∧ ∃ b, IsTrunkAt ε εA rs b ∧ ∃ hb : b < (rs.map eraseLoc).length,
+      ∃ h0 : 0 < (rs.map eraseLoc).length,
+      createStog ε εA rs =
+        some (true, label ε εA (((rs.map eraseLoc).set 0 (rs.map eraseLoc)[b]).set b (rs.map eraseLoc)[0]))) := by
+  match rs, hne with
+  | [r], _ => exact Or.inl ⟨r, rfl, rfl⟩
+  | a :: c :: tl, _ =>
+    right
+    set L := (a :: c :: tl).map eraseLoc with hL
+    have hlen : L.length = (a :: c :: tl).length := by simp [hL]
+    have h2 : 2 ≤ (a :: c :: tl).length := by simp
+    have hcs : createStog ε εA (a :: c :: tl) =
+        match scan ε εA L L.zipIdx none with
+        | none => some (false, L)
+        | some (b, rb) =>
+          match (L.set 0 rb).set b (eraseLoc a) with
+          | [] => none
+          | t :: others =>
+            some (true, { t with loc := .trunk } :: others.map fun r => { r with loc := findLocation ε εA t r }) := rfl
+    have hgood := scan_good ε εA L L.zipIdx none (goodItems_zipIdx L) trivial
+    cases hsc : scan ε εA L L.zipIdx none with
+    | none =>
+      left
+      refine ⟨h2, ?_, ?_⟩
+      · rintro ⟨i, hi⟩
+        rw [← isTrunkAt_map_eraseLoc] at hi
+        have hlt : i < L.length := hi.1
+        have hv := (isTrunkAt_iff_valid ε εA L i hlt).mp hi
+        have hall := (scan_none_iff ε εA L L.zipIdx).mp hsc (L[i], i)
+          (by rw [List.mem_zipIdx_iff_getElem?]; simp [hlt])
+        simp only at hall
+        rw [hv] at hall; exact absurd hall (by simp)
+      · rw [hcs, hsc]
+    | some best =>
+      right
+      obtain ⟨b, rb⟩ := best
+      rw [hsc] at hgood
+      obtain ⟨hb, hrb, hv⟩ := hgood
+      have h0 : 0 < L.length := by rw [hlen]; simp
+      refine ⟨h2, b, ?_, hb, h0, ?_⟩
+      · rw [← isTrunkAt_map_eraseLoc, isTrunkAt_iff_valid ε εA L b hb, ← hrb]; exact hv
+      · rw [hcs, hsc]
+        simp only
+        have ha : eraseLoc a = L[0] := by simp [hL]
+        rw [ha, hrb]
+        obtain ⟨others, hsw, _⟩ := swapped_shape L b h0 hb
+        rw [hsw]; rfl
+
 end Stog
 end FV
